@@ -166,7 +166,8 @@ def run(ctx):
         seen.add(t)
         # every element of the iterable that reaches the result does so as self._render_part(<name>, <value>) of ONE pair
         elems = [x for x in subterms(t) if destruct(x)[0] in ("each0", "each1", "idx") and ("p:header_parts" in x)]
-        ok = all(occurs_only_under(t, x, {"self._render_part"}) for x in elems)
+        # (occurrences inside a comprehension's filter condition decide, they do not reach the result)
+        ok = all(occurs_only_under(t, x, {"self._render_part", "cmp:isnot", "cmp:is", "cmp:eq", "cmp:ne", "truthy", "isinstance"}) for x in elems)
         calls = [x for x in subterms(t) if destruct(x)[0] == "self._render_part"]
         pair_ok = all(len(destruct(c)[1]) == 2 and destruct(c)[1][0].replace("each0", "E").replace("idx(", "E(") != destruct(c)[1][1] for c in calls)
         n_rendered += len(calls)
